@@ -7,5 +7,6 @@ Import ListNotations.
 Record case := { k_in : cfg_input; k_boot_ok : bool; k_boot : list rres; k_obs : list obs; k_preds : list bool }.
 
 Definition check (k : case) : verdict :=
-  if negb (c11_scope (k_in k)) then VSkip else
-  mk_verdict None (oracle (k_in k) (k_boot_ok k) (k_boot k) (k_obs k)).
+  let i := settle (k_in k) in     (* announced values no type can read: Spec/C11.v *)
+  if negb (c11_scope i) then VSkip else
+  mk_verdict None (oracle i (k_boot_ok k) (k_boot k) (k_obs k)).
